@@ -679,7 +679,11 @@ pzgssvx(int_t nprocs, superlumt_options_t *superlumt_options, SuperMatrix *A,
 	
     }
 
-    superlu_zQuerySpace(nprocs, L, U, panel_size, superlu_memusage);
+    /* L and U exist unless the factorization ran out of memory
+       (info > ncol+1): do not read the statistics off factors that were
+       never built. */
+    if ( *info <= A->ncol + 1 )
+	superlu_zQuerySpace(nprocs, L, U, panel_size, superlu_memusage);
 
     /* ------------------------------------------------------------
        Deallocate storage after factorization.
